@@ -98,7 +98,8 @@ def run(ctx):
     res = lib.validate_parallel("Trace_OSMAPOSL", [c[0] for c in chunks], jobs=W, timeout=1500, heap="3g")
     ctx.notes.append("wall: build %.0fs, recording %.0fs, waiting for model checks %.0fs, trace validation %.0fs" % (t1 - t0, t2 - t1, t3 - t2, time.time() - t3))
     known_ids = {k["id"] for k in ctx.known}
-    seen = {"N": set(), "flags": set(), "prior": set(), "setup": set(), "mode": set(), "variant": set(), "kinds": set()}
+    seen = {"N": set(), "flags": set(), "prior": set(), "setup": set(), "mode": set(), "variant": set(), "kinds": set(), "changes": set()}
+    nreuse = 0
     tot = [0] * 7
     nobj = 0
     nsteps = 0
@@ -123,6 +124,11 @@ def run(ctx):
                 nobj += 1
                 seen["N"].add(rec["N"])
                 seen["mode"].add(rec["mode"])
+                if rec.get("reuse"):
+                    nreuse += 1
+                    seen["changes"].add((rec["mode"], rec["change"]))
+                seen["flags"].add(("zero", rec.get("zero", False)))
+                seen["flags"].add(("maxSeg", rec.get("maxSeg", -1) >= 0))
                 seen["prior"].add((rec["prior"], rec["mult"] if rec["prior"] else False))
                 for k in ("additive", "norm", "uss"):
                     seen["flags"].add((k, rec[k]))
@@ -139,7 +145,7 @@ def run(ctx):
                     nsteps += 1
                 if e == "Resume":
                     seen["variant"].add(rec["variant"])
-                ctx.nontrivial((inst["mode"], inst["N"], inst["additive"], inst["norm"], inst["uss"], inst["prior"], inst["mult"] if inst["prior"] else False,
+                ctx.nontrivial((inst["mode"], inst.get("change", ""), inst["N"], inst["additive"], inst["norm"], inst["uss"], inst["prior"], inst["mult"] if inst["prior"] else False,
                                 inst["iuf"] > 0, inst["iif"] > 0, e, rec.get("variant", -1)))
         newbad = []
         for (ln, cls) in lib.unexplained(r):
@@ -159,7 +165,7 @@ def run(ctx):
                 len(newbad), ",".join(kinds), json.dumps({k: v for k, v in recs[first].items() if k not in ("bins", "rows", "cols", "a", "ef")})[:300]), rp)
     ctx.traces = nobj
     law, ll, cons, cont, dom, known, new = tot
-    ctx.extra.update({"objects": nobj, "steps_recorded": nsteps, "steps_law_evaluated": law, "loglikelihood_clauses": ll,
+    ctx.extra.update({"objects": nobj, "reuse_histories": nreuse, "reuse_changes": sorted({c for (mo, c) in seen["changes"]}), "steps_recorded": nsteps, "steps_law_evaluated": law, "loglikelihood_clauses": ll,
                       "count_clauses": cons, "restart_images_compared_equal": cont, "steps_outside_arithmetic_domain": dom,
                       "lines_matching_known_finding": known})
     # ---- vacuity guards: the recorded executions must contain what the check claims to exercise
@@ -173,12 +179,14 @@ def run(ctx):
         problems = []
         if not {1, 2, 3, 4, 6} <= seen["N"]:
             problems.append("numbers of subsets %s" % sorted(seen["N"]))
-        if len(seen["flags"]) < 10:
+        if len(seen["flags"]) < 14:
             problems.append("flags %s" % sorted(seen["flags"]))
         if not {(0, False), (1, False), (1, True), (2, False), (2, True)} <= seen["prior"]:
             problems.append("priors %s" % sorted(seen["prior"]))
-        if seen["setup"] != {True, False} or seen["mode"] != {"exact", "free"} or seen["variant"] != {0, 1, 2, 3}:
+        if seen["setup"] != {True, False} or seen["mode"] != {"exact", "free"} or seen["variant"] != {0, 1, 2, 3, 4}:
             problems.append("set-up verdicts / modes / restart variants %s %s %s" % (seen["setup"], seen["mode"], seen["variant"]))
+        if len({c for (mo, c) in seen["changes"] if mo == "exact"}) < 9 or len({c for (mo, c) in seen["changes"] if mo == "free"}) < 8:
+            problems.append("re-use histories %s" % sorted(seen["changes"]))
         if not {"Step", "Start", "Final", "Resume", "Cont"} <= seen["kinds"]:
             problems.append("kinds %s" % sorted(seen["kinds"]))
         # (the counts are of clauses that HELD; when lines were rejected the violations are the result, not the counts)
